@@ -21,6 +21,9 @@ def law_dict(law, idx, named, params_out, explicit_species=False):
         if explicit_species:
             d["species"] = "*".join(sname(s) for s in law["re"])
         return t, d
+    if t == "affine":
+        # a 'general' propensity  K + k*s1 - n*d
+        return "general", {"rate": "%s + %s*%s - %s*%s" % (val("K", law["K"]), val("k", law["k"]), sname(law["s1"]), val("n", law["n"]), sname(law["d"]))}
     d = {"k": val("k", law["k"]), "K": val("K", law["K"]), "n": val("n", law["n"]), "s1": sname(law["s1"])}
     if t.startswith("proportional"):
         d["d"] = sname(law["d"])
@@ -71,7 +74,7 @@ def build(prog, x0=None, via_ctor=False, initialize=True, ns=None, rules=(), mod
     for rx in prog["rx"]:
         if rx["law"]["type"] != "massaction":
             for key in ("s1", "d"):
-                if key == "d" and not rx["law"]["type"].startswith("proportional"):
+                if key == "d" and not (rx["law"]["type"].startswith("proportional") or rx["law"]["type"] == "affine"):
                     continue
                 if sname(rx["law"][key]) not in decl:
                     decl.append(sname(rx["law"][key]))
